@@ -102,3 +102,32 @@ Lemma in_posb_false p G : in_posb p G = false <-> ~ In p (posl G).
 Proof. rewrite <- in_posb_true. destruct (in_posb p G); intuition congruence. Qed.
 Lemma existsb_has_pos p l : existsb (has_pos p) l = true <-> In p (posl l).
 Proof. apply in_posb_true. Qed.
+
+(* ---------- the request validation, as propositions ---------- *)
+Lemma nodup_posb_true l : nodup_posb l = true <-> NoDup l.
+Proof.
+  induction l as [|p l IH]; cbn; [split; [constructor | reflexivity]|].
+  rewrite andb_true_iff, negb_true_iff, mem_pos_nIn, IH, NoDup_cons_iff. reflexivity.
+Qed.
+Lemma nodup_Nb_true l : nodup_Nb l = true <-> NoDup l.
+Proof.
+  induction l as [|p l IH]; cbn; [split; [constructor | reflexivity]|].
+  rewrite andb_true_iff, negb_true_iff, memN_nIn, IH, NoDup_cons_iff. reflexivity.
+Qed.
+Lemma elems_ok_true es : elems_ok es = true -> uniq es /\ (forall e, In e es -> NoDup (e_tags e)).
+Proof.
+  unfold elems_ok. rewrite andb_true_iff, nodup_posb_true, forallb_forall. intros [H1 H2]. split; [exact H1|].
+  intros e He. apply nodup_Nb_true. exact (H2 e He).
+Qed.
+Lemma find_has_pos_none p l : find (has_pos p) l = None <-> ~ In p (posl l).
+Proof.
+  induction l as [|a l IH]; cbn; [tauto|]. destruct (has_pos p a) eqn:E.
+  - apply has_pos_true in E. split; [discriminate | tauto].
+  - apply has_pos_false in E. rewrite IH. tauto.
+Qed.
+Lemma find_has_pos_uniq p l m : uniq l -> In m l -> e_pos m = p -> find (has_pos p) l = Some m.
+Proof.
+  intros U Hm Hp. destruct (find (has_pos p) l) as [y|] eqn:E.
+  - apply find_some in E as [Hy Ey]. apply has_pos_true in Ey. f_equal. apply (uniq_inj l y m U Hy Hm). congruence.
+  - apply find_has_pos_none in E. exfalso. apply E. rewrite <- Hp. now apply in_posl.
+Qed.
